@@ -51,6 +51,29 @@ pub fn check(cx: &Cx, rep: &mut Report) {
                     rep.count("C13.interleaved_message_between_items", 1);
                 }
             }
+            // tie-break observation: at a handler exit, a message was already waiting in the mailbox *and* the
+            // stream had its next item ready (same burst): which source did the loop's random select take next?
+            if let Some(spec) = spec {
+                if !spec.always_ready {
+                    // items of one burst: consecutive yields at the same virtual instant
+                    let tl: Vec<&&crate::index::Inv> = invs.iter().collect();
+                    for w in tl.windows(2) {
+                        let (a, b) = (w[0], w[1]);
+                        let Some(exit) = a.out.map(|o| o.0) else { continue };
+                        // a client message accepted before `exit` and handled after it
+                        let msg_waiting = ix.ops.iter().any(|o| o.tag == af.tag && matches!(o.op, OpK::Send | OpK::Call) && o.b < exit && ix.inv_of.get(&o.msg).map(|v| ix.invs[v[0]].i > exit).unwrap_or(false) && (o.op == OpK::Call || o.e.map(|e| e < exit).unwrap_or(false)));
+                        // the next item was ready: it was yielded at the same virtual time as `a` ended and belongs to a burst
+                        let next_item_ready = yielded.iter().any(|y| y.0 > exit && ix.ev[y.0 as usize].vt == ix.ev[exit as usize].vt) && spec.bursts.iter().any(|b| b.1 >= 2);
+                        if msg_waiting && next_item_ready {
+                            match b.mk {
+                                Mk::Item => rep.count("C13.tie_break.item_taken_first", 1),
+                                Mk::Fire | Mk::Ask => rep.count("C13.tie_break.message_taken_first", 1),
+                                _ => {}
+                            }
+                        }
+                    }
+                }
+            }
             // R2: messages in their own order (same rule as C01.R3, restricted to this actor)
             let subs: Vec<&crate::index::OpRec> = ix.ops.iter().filter(|o| o.tag == af.tag && matches!(o.op, OpK::Send | OpK::Call | OpK::ForceSend) && o.executed()).collect();
             for m1 in &subs {
